@@ -18,7 +18,7 @@ func c05Plan(stage string, n, cap int) *driver.Plan {
 func c05Gen(r *driver.Rand, thorough bool) *driver.Plan {
 	stage := driver.Pick(r, c05Stages...)
 	n := genLen(r, thorough)
-	p := c05Plan(stage, n, driver.Pick(r, caps...))
+	p := c05Plan(stage, n, genCap(r))
 	p.Fn = r.Intn(60)
 	p.FnArg = r.Intn(n + 2)
 	if stage == "Take" {
